@@ -421,4 +421,40 @@ def render (orc : Oracle) (decls : List Decl) : Outcome → String
   | .version => "version"
   | .done a => " ".intercalate (("ok" :: renderOpts orc a.sets firstUserId decls) ++ ("|" :: a.rest.map hexOf))
 
+/-! ### extensions (hardening pass): response files as raw bytes, `Parse` called twice, the exported fatal entry points -/
+
+/-- `bufio.dropCR` -/
+def dropCR (l : Str) : Str := if l.getLast? = some 13 then l.dropLast else l
+
+/-- the lines `bufio.Scanner` (ScanLines) yields for the content of a file: split at `\n`, one trailing `\r` dropped
+    from each line; a final piece without terminator is a line if it is non-empty (also when it is a lone `\r`) -/
+def linesAux : Str → Str → List Str
+  | [], cur => if cur = [] then [] else [dropCR cur.reverse]
+  | 10 :: t, cur => dropCR cur.reverse :: linesAux t []
+  | c :: t, cur => linesAux t (c :: cur)
+
+def linesOf (content : Str) : List Str := linesAux content []
+
+/-- two `Parse` calls on the same `CmdLine`: the option variables keep what the first call stored (so the second call's
+    "defaults" are the first call's results, slices keep growing, a help/version flag set by the first call is still
+    set), the set of loaded response files starts empty again, the second call returns its own remaining arguments;
+    a fatal first call ends the process -/
+def parseTwice (orc : Oracle) (includeDefault : Bool) (decls : List Decl) (files : Files) (args1 args2 : List Str) :
+    Outcome × List Str :=
+  match build includeDefault decls with
+  | none => (.fatal, [])
+  | some es =>
+    let tbl := tableOf es
+    let acc := acceptsOf orc includeDefault decls
+    match finish (scan tbl acc files args1) with
+    | .done a1 =>
+      (match scan tbl acc files args2 with
+       | .fatal => (.fatal, a1.rest)
+       | .ok a2 => (finish (.ok ⟨a1.sets ++ a2.sets, a2.rest⟩), a1.rest))
+    | o => (o, [])
+
+/-- `FatalIfError(err)`: returns when `err == nil`, otherwise the fatal exit (`FatalError` → `FatalMsg` → `atexit.Exit(1)`) -/
+def fatalIfError (isNil : Bool) : Option Unit := if isNil then some () else none
+
+
 end Cmd
